@@ -60,12 +60,15 @@ theorem tie_lock_setcount : lock_setCount_count.xform = .decIfPosKeepFFFF := by 
 /-- Event, default-set mode: Clear = `LockUpdate` of (LockId = key = eventKey, Count 0); Set = `Unlock` of the same;
 Wait = `Lock` with a fresh LockId, the caller's timeout, Expried 0, Count 0; IsSet = the same with Timeout 0. -/
 theorem tie_event_set_mode :
-    event_clear_set = { prim := "Event", op := "Event.Clear", mode := "set", lockId := .field "eventKey", key := .field "eventKey",
-      timeout := .field "timeout", expried := .field "expried", count := .const 0, rcount := .const 0, calls := ["LockUpdate"] } ∧
-    event_set_set = { prim := "Event", op := "Event.Set", mode := "set", lockId := .field "eventKey", key := .field "eventKey",
-      timeout := .field "timeout", expried := .field "expried", count := .const 0, rcount := .const 0, calls := ["Unlock"] } ∧
-    event_wait_set = { prim := "Event", op := "Event.Wait", mode := "set", lockId := .fresh, key := .field "eventKey",
-      timeout := .param "timeout", expried := .const 0, count := .const 0, rcount := .const 0, calls := ["Lock"] } ∧
+    event_clear_set =
+      { prim := "Event", op := "Event.Clear", mode := "set", lockId := .field "eventKey", key := .field "eventKey",
+        timeout := .field "timeout", expried := .field "expried", count := .const 0, rcount := .const 0, calls := ["LockUpdate"] } ∧
+    event_set_set =
+      { prim := "Event", op := "Event.Set", mode := "set", lockId := .field "eventKey", key := .field "eventKey",
+        timeout := .field "timeout", expried := .field "expried", count := .const 0, rcount := .const 0, calls := ["Unlock"] } ∧
+    event_wait_set =
+      { prim := "Event", op := "Event.Wait", mode := "set", lockId := .fresh, key := .field "eventKey",
+        timeout := .param "timeout", expried := .const 0, count := .const 0, rcount := .const 0, calls := ["Lock"] } ∧
     event_isSet_set.timeout = .const 0 ∧ event_isSet_set.expried = .const 0 ∧ event_isSet_set.count = .const 0 :=
   ⟨rfl, rfl, rfl, rfl, rfl, rfl⟩
 
@@ -78,14 +81,18 @@ theorem tie_event_clear_mode :
 /-- The methods of `client.Lock` the primitives call: which fields go to `doLock`/`doUnlock`, with which flag, and which
 results come back with a nil error. -/
 theorem tie_lock_methods :
-    lock_lock = { name := "Lock", isLock := true, flag := .const 0, lockId := .field "lockId", timeout := .field "timeout",
-      expried := .field "expried", count := .field "count", rcount := .field "rcount", ok := [0] } ∧
-    lock_unlock = { name := "Unlock", isLock := false, flag := .const 0, lockId := .field "lockId", timeout := .field "timeout",
-      expried := .field "expried", count := .field "count", rcount := .field "rcount", ok := [0] } ∧
-    lock_lockUpdate = { name := "LockUpdate", isLock := true, flag := .const 2, lockId := .field "lockId", timeout := .field "timeout",
-      expried := .field "expried", count := .field "count", rcount := .field "rcount", ok := [0, 5] } ∧
-    lock_unlockHead = { name := "UnlockHead", isLock := false, flag := .const 1, lockId := .zero, timeout := .field "timeout",
-      expried := .field "expried", count := .field "count", rcount := .field "rcount", ok := [0] } := ⟨rfl, rfl, rfl, rfl⟩
+    lock_lock =
+      { name := "Lock", isLock := true, flag := .const 0, lockId := .field "lockId", timeout := .field "timeout",
+        expried := .field "expried", count := .field "count", rcount := .field "rcount", ok := [0] } ∧
+    lock_unlock =
+      { name := "Unlock", isLock := false, flag := .const 0, lockId := .field "lockId", timeout := .field "timeout",
+        expried := .field "expried", count := .field "count", rcount := .field "rcount", ok := [0] } ∧
+    lock_lockUpdate =
+      { name := "LockUpdate", isLock := true, flag := .const 2, lockId := .field "lockId", timeout := .field "timeout",
+        expried := .field "expried", count := .field "count", rcount := .field "rcount", ok := [0, 5] } ∧
+    lock_unlockHead =
+      { name := "UnlockHead", isLock := false, flag := .const 1, lockId := .zero, timeout := .field "timeout",
+        expried := .field "expried", count := .field "count", rcount := .field "rcount", ok := [0] } := ⟨rfl, rfl, rfl, rfl⟩
 
 /-- what `Lock.doLock` / `Lock.doUnlock` put on the wire: the flag halves and value halves of the two 32-bit words, Count,
 Rcount, LockId, the object's key — the mapping M-CLIENT's `cmdOf` implements. -/
@@ -377,7 +384,7 @@ by the step that receives it, the event is set in that state. -/
 theorem event_wait_direct (db : DB) (hinv : DBInv db) (e : Env) (r n : Nat) (rep : Reply)
     (hrep : (opLock db (evWaitCmd e r n)).2.head? = some rep) (hok : rep.result ∈ lock_lock.ok) :
     eventIsSet db (e.field "eventKey") := by
-  have hres : rep.result = RESULT_SUCCED := by simpa [lock_lock] using hok
+  have hres : rep.result = RESULT_SUCCED := by simpa [lock_lock, RESULT_SUCCED] using hok
   exact nohold_succed_free db (evWaitCmd e r n) hinv rfl rfl rfl rep hrep hres
 
 /-- **Wait, answered from the queue.** Every grant out of the wait queue is made by a wake iteration at the queue's head
@@ -420,28 +427,31 @@ def envL (id : Nat) : Env :=
 
 -- Lock: the second Lock object is queued, and gets the key when the first unlocks
 example : ((run (DB.init 100) [.lock (lockCmd (envL 1) 1 1), .lock (lockCmd (envL 2) 2 2)]).getKey 7).holders.length = 1 ∧
-    ((run (DB.init 100) [.lock (lockCmd (envL 1) 1 1), .lock (lockCmd (envL 2) 2 2)]).getKey 7).waiters.length = 1 := by decide
+    ((run (DB.init 100) [.lock (lockCmd (envL 1) 1 1), .lock (lockCmd (envL 2) 2 2)]).getKey 7).waiters.length = 1 := by decide +kernel
 example : (((run (DB.init 100) [.lock (lockCmd (envL 1) 1 1), .lock (lockCmd (envL 2) 2 2), .unlock (unlockCmd (envL 1) 3 1)]).getKey 7).holders.map
-    (·.cmd.lockId)) = [2] := by decide
+    (·.cmd.lockId)) = [2] := by decide +kernel
 -- Semaphore(2): two holders, the third queued
 example : ((run (DB.init 100) [.lock (semAcquireCmd 2 (envL 1) 1 1), .lock (semAcquireCmd 2 (envL 2) 2 1),
-    .lock (semAcquireCmd 2 (envL 3) 3 1)]).getKey 7).holders.length = 2 := by decide
+    .lock (semAcquireCmd 2 (envL 3) 3 1)]).getKey 7).holders.length = 2 := by decide +kernel
 -- RWLock: two readers share; the writer waits
 example : ((run (DB.init 100) [.lock (rwReadCmd (envL 1) 1 1), .lock (rwReadCmd (envL 2) 2 1), .lock (rwWriteCmd (envL 3) 3 1)]).getKey 7).holders.map
-    (·.cmd.count) = [0xffff, 0xffff] := by decide
+    (·.cmd.count) = [0xffff, 0xffff] := by decide +kernel
 -- RLock: three locks, depth 3; two unlocks, depth 1
 example : ((run (DB.init 100) [.lock (rlockCmd (envL 1) 1 1), .lock (rlockCmd (envL 1) 2 1), .lock (rlockCmd (envL 1) 3 1)]).getKey 7).holders.map
-    (·.depth) = [3] := by decide
+    (·.depth) = [3] := by decide +kernel
 example : ((run (DB.init 100) [.lock (rlockCmd (envL 1) 1 1), .lock (rlockCmd (envL 1) 2 1), .lock (rlockCmd (envL 1) 3 1),
-    .unlock (runlockCmd (envL 1) 4 1), .unlock (runlockCmd (envL 1) 5 1)]).getKey 7).holders.map (·.depth) = [1] := by decide
+    .unlock (runlockCmd (envL 1) 4 1), .unlock (runlockCmd (envL 1) 5 1)]).getKey 7).holders.map (·.depth) = [1] := by decide +kernel
 -- PriorityLock: priorities 3, 9, 5 queue behind the holder; the queue is 9, 5, 3 and 9 is granted first on unlock
 example : ((run (DB.init 100) [.lock (prioLockCmd (envL 1) 1 1), .lock (prioLockCmd (envL 3) 2 2), .lock (prioLockCmd (envL 9) 3 3),
-    .lock (prioLockCmd (envL 5) 4 4)]).getKey 7).waiters.map (fun w => cmdPriority w.cmd) = [9, 5, 3] := by decide
+    .lock (prioLockCmd (envL 5) 4 4)]).getKey 7).waiters.map (fun w => cmdPriority w.cmd) = [9, 5, 3] := by decide +kernel
 -- Event: clear, a Wait queues; Set wakes it with SUCCED
-example : (opLock (run (DB.init 100) [.lock (evClearCmd (envL 0) 1 1)]) (evWaitCmd (envL 5) 2 2)).2 = [] := by decide
+example : (opLock (run (DB.init 100) [.lock (evClearCmd (envL 0) 1 1)]) (evWaitCmd (envL 5) 2 2)).2 = [] := by decide +kernel
 example : ((opUnlock (run (DB.init 100) [.lock (evClearCmd (envL 0) 1 1), .lock (evWaitCmd (envL 5) 2 2)]) (evSetCmd (envL 0) 3 1)).2.map
-    (fun r => (r.req, r.result))) = [(3, 0), (2, 0)] := by decide
+    (fun r => (r.req, r.result))) = [(3, 0), (2, 0)] := by decide +kernel
+instance (db : DB) (c : Cmd) : Decidable (Fresh db c) := by unfold Fresh; infer_instance
 example : FreshRun (DB.init 100) [.lock (lockCmd (envL 1) 1 1), .lock (lockCmd (envL 2) 2 2), .tick] := by
-  refine ⟨?_, ?_, trivial, trivial⟩ <;> decide
+  refine ⟨?_, ?_, trivial, trivial⟩
+  · show Fresh _ _; decide
+  · show Fresh _ _; decide
 
 end Slock.C19
